@@ -10,7 +10,9 @@
 //	       of 76 macro instructions that type-check against the observed
 //	       machine state (breadth first, merged by canonical machine state
 //	       incl. hidden counters), and a second pass over a 34-macro core
-//	       alphabet up to length 6 (quick) / 8 (thorough).
+//	       alphabet up to length 6 (quick) / 7 (thorough). If time is left
+//	       the thorough tier then tries one level more in each alphabet
+//	       (optional: reported, but not part of the stated bounds).
 //
 // After EVERY instruction the machine is walked independently (oracle_test.go).
 package c12
@@ -18,6 +20,7 @@ package c12
 import (
 	"encoding/hex"
 	"fmt"
+	"os"
 	"sort"
 	"strconv"
 	"strings"
@@ -63,9 +66,9 @@ type ocKey struct {
 
 type local struct {
 	execs, steps, correct, cyclic, over, runStepDiff, deepNotStatic, decoderDiff, notes int64
-	maxWalk, maxInvoc, maxTry                                                    int
-	outcomes                                                                     map[ocKey]int64
-	sigs                                                                         map[string]struct{}
+	maxWalk, maxInvoc, maxTry                                                           int
+	outcomes                                                                            map[ocKey]int64
+	sigs                                                                                map[string]struct{}
 }
 
 type stats struct {
@@ -378,10 +381,16 @@ func TestCheck(t *testing.T) {
 	}
 	rawLen := vk.Pick(r, 2, 3)
 	depth := vk.Pick(r, 5, 6)
-	coreDepth := vk.Pick(r, 6, 8)
+	coreDepth := vk.Pick(r, 6, 7)
+	start := time.Now()
+	budget := vk.Pick(r, 150*time.Second, 24*time.Minute)
+	if b, err := strconv.Atoi(os.Getenv("VERIF_BUDGET_S")); err == nil {
+		budget = time.Duration(b) * time.Second
+	}
+	must := &sched{r: r}
 
-	// Order: what the quick tier does comes first, so a thorough run that hits
-	// its deadline on a busy machine still contains the quick one.
+	// Mandatory passes; what the quick tier does comes first, so a thorough run
+	// that hits its deadline on a busy machine still contains the quick one.
 	t0 := time.Now()
 	nLimit, limitMiss := limitsPart(s)
 	tLimits := time.Since(t0).Seconds()
@@ -391,11 +400,11 @@ func TestCheck(t *testing.T) {
 	tRaw := time.Since(t0).Seconds()
 
 	t0 = time.Now()
-	d := deepPart(s, depth, alphabetMask(nil), true)
+	d := deepPart(s, must, depth, alphabetMask(nil), true)
 	tDeep := time.Since(t0).Seconds()
 
 	t0 = time.Now()
-	dc := deepPart(s, coreDepth, alphabetMask(coreAlphabet), false)
+	dc := deepPart(s, must, coreDepth, alphabetMask(coreAlphabet), false)
 	tCore := time.Since(t0).Seconds()
 
 	if rawLen >= 3 {
@@ -406,10 +415,33 @@ func TestCheck(t *testing.T) {
 	fmt.Printf("C12 %s: limits %d programs %.1fs | raw len<=%d %d scripts %.1fs | deep L=%d levels=%v states=%d programs=%d %.1fs | core L=%d levels=%v states=%d programs=%d %.1fs | execs=%d steps=%d\n",
 		r.Tier, nLimit, tLimits, rawLen, nRaw, tRaw, depth, d.levelSizes, d.states, d.programs, tDeep, coreDepth, dc.levelSizes, dc.states, dc.programs, tCore, s.tot.execs, s.tot.steps)
 
+	// Optional deepening (thorough only): one level more in each alphabet, as
+	// far as the time left allows. It does not change the stated bounds and
+	// never marks the run as capped; the evidence says how far it got.
+	extra := map[string]any{}
+	if r.Thorough() && !r.IsCapped() {
+		for _, x := range []struct {
+			name  string
+			L     int
+			names []string
+		}{{"core", coreDepth + 1, coreAlphabet}, {"deep", depth + 1, nil}} {
+			opt := &sched{r: r, soft: start.Add(budget * 9 / 10)}
+			if opt.expired() {
+				break
+			}
+			t0 = time.Now()
+			o := deepPart(s, opt, x.L, alphabetMask(x.names), false)
+			extra[x.name] = map[string]any{"target_depth": x.L, "complete_to_depth": o.completeDepth, "candidates_per_level": o.levelCands,
+				"level_sizes_after_merge": o.levelSizes, "programs_executed": o.programs, "states": o.states, "wall_s": time.Since(t0).Seconds()}
+			fmt.Printf("C12 %s: optional %s pass to L=%d: complete to %d, programs=%d, %.1fs\n", r.Tier, x.name, x.L, o.completeDepth, o.programs, time.Since(t0).Seconds())
+		}
+	}
+
 	inputsPerClass := s.flush()
 	outcomes := s.outcomeMap()
 	r.Finish(map[string]any{
 		"failing_inputs_per_class":      inputsPerClass,
+		"optional_deepening":            extra,
 		"states":                        d.states + dc.states + len(s.tot.sigs),
 		"transitions":                   int(s.tot.steps),
 		"traces_validated_against_impl": int(s.tot.execs),
@@ -460,6 +492,7 @@ func TestCheck(t *testing.T) {
 		"the exactness assertion (VM counter == walk) is switched off for the rest of a run once an APPEND/SETITEM inserts an item from which the container is reachable",
 		"the offset len(script), where the implicit RET is executed, counts as an instruction boundary",
 		"unexported state read by the harness: Context.tryStack (length only); rc.count of compounds is read for state merging only, never asserted",
+		"deep passes: at most 3 open try blocks per call frame and 6 open brackets (calls + try blocks) at a time; indices/keys 0 and 1; THROW only where the nearest handler is a catch block (a pending exception inside finally is covered by the THROW_VIA_FINALLY macro and by the limit programs)",
 		"one violation per class of finding (what : instruction[operand kinds]), carrying the smallest failing input; failing_inputs_per_class counts the rest",
 	})
 }
